@@ -1,5 +1,5 @@
 (* C03 - control flow and lexical scoping.  Statements only; proofs in Proofs/. *)
-From Chibicc Require Import Base.Mach Model.Control Proofs.ControlProofs.
+From Chibicc Require Import Base.Mach Model.Control Proofs.ControlProofs Model.Lowering Proofs.LoweringProofs.
 Local Open Scope Z_scope.
 
 (* switch: for a controlling value v of the promoted controlling type (signed or unsigned, 32 or 64
@@ -45,3 +45,32 @@ Definition demo_cases := [ {| c_begin := 4294967297; c_end := 4294967297; c_labe
 Example C03_nonvacuous : map (fun v => dispatch 64 v demo_cases (Some 9%nat) 0%nat) [4294967297; 1; -3; -6; 7] = [1; 3; 2; 9; 9]%nat.
 Proof. reflexivity. Qed.
 Print Assumptions C03_nonvacuous.
+
+(* lowering of if / for / while / do / break / continue to labels and jumps (gen_stmt): whenever the
+   structured program, run on ANY sequence of condition outcomes, produces a trace of markers and
+   condition evaluations, the emitted jump code - placed anywhere inside a larger program - produces
+   exactly that trace, consumes exactly those outcomes, and leaves control at the end of the
+   statement, at the enclosing break target, or at the enclosing continue target respectively.
+   No bound on nesting depth, on the number of iterations or on the size of the program. *)
+Local Close Scope Z_scope.
+Theorem C03_lowering_simulation : forall fuel s o tr o' out, lexec fuel s o = Some (tr, o', out) ->
+  forall P p b c, embedded P p (lgen s p b c) -> lstar P (p, o) tr (ltarget out p s b c, o').
+Proof. exact lowering_simulates. Qed.
+Print Assumptions C03_lowering_simulation.
+
+Theorem C03_lowered_program : forall fuel s o tr o', lexec fuel s o = Some (tr, o', ONormal) ->
+  forall b c, lstar (lgen s 0 b c) (0, o) tr (lsize s, o').
+Proof. exact program_simulates. Qed.
+Print Assumptions C03_lowered_program.
+
+(* the jump machine has one run per state, so the run above is the only one *)
+Theorem C03_target_deterministic : forall P s t1 s1, lstar P s t1 s1 -> forall t2 s2, lstar P s t2 s2 ->
+  (exists t, lstar P s1 t s2 /\ t2 = t1 ++ t) \/ (exists t, lstar P s2 t s1 /\ t1 = t2 ++ t).
+Proof. exact lstar_det. Qed.
+Print Assumptions C03_target_deterministic.
+
+(* non-vacuity: for (M1; E2; M3) { if (E4) continue; else M5; do { M6; break; } while (E7); }  on outcomes T T T F F *)
+Definition demo_loop := LFor (LMark 1) (Some 2) (LMark 3) (LSeq (LIf 4 LContinue (LMark 5)) (LDo (LSeq (LMark 6) LBreak) 7)).
+Example C03_lowering_nonvacuous : lexec 20 demo_loop [true; true; true; false; false] = Some ([1; 2; 4; 3; 2; 4; 5; 6; 3; 2], [], ONormal).
+Proof. reflexivity. Qed.
+Print Assumptions C03_lowering_nonvacuous.
